@@ -62,8 +62,11 @@ def collect(prop, tier, seed):
     """run every stage; returns a dict with proof / correspondence / monitor findings and coverage numbers"""
     P = MAP[prop]
     t0 = time.time()
+    pre_problems = []
+    if prop in PRE:
+        pre_problems = PRE[prop](tier, seed) or []
     lean = vlib.lean_stage(P['modules'], P['theorems'], need_driver=True)
-    proof = list(lean['broken'])
+    proof = list(lean['broken']) + pre_problems
     for u in relevant_untranslatable(prop, lean['untranslatable']):
         proof.append(dict(theorem='(translator) ' + u.get('item', '?'), why='source construct outside the translator subset: ' + u.get('why', '')))
     for h in lean['forbidden']:
@@ -269,9 +272,10 @@ def replay(prop, path):
 
 EXTRA = {}
 EXTRA_SEARCH = {}
+PRE = {}
 
 try:
     import props_extra  # noqa: F401  (registers EXTRA / EXTRA_SEARCH entries)
-    props_extra.register(EXTRA, EXTRA_SEARCH)
+    props_extra.register(EXTRA, EXTRA_SEARCH, PRE)
 except ImportError:
     pass
